@@ -30,7 +30,7 @@ TOKEN_RE = re.compile(r'''
   | (?P<num>0x[0-9a-fA-F_]+|\d[\d_]*)(?:usize|u8|u16|u32|u64|i32|i64)?
   | (?P<str>"(?:\\.|[^"\\])*")
   | (?P<id>[A-Za-z_][A-Za-z0-9_]*)
-  | (?P<op>\.\.=|\.\.\.|\.\.|=>|->|::|&&|\|\||<=|>=|==|!=|\+=|-=|<<|>>|[-+*/%<>=!&|(){}\[\],;:@.#?])
+  | (?P<op>\.\.=|\.\.\.|\.\.|=>|->|::|&&|\|\||<=|>=|==|!=|\+=|-=|\^=|<<|>>|[-+*/%<>=!&|^(){}\[\],;:@.#?])
 ''', re.X)
 
 
@@ -60,6 +60,7 @@ def tokenize(s):
     return toks
 
 
+ALLOW_UNSAFE = False
 BLOCKLIKE = ('if', 'match', 'loop', 'while', 'for', 'block')
 
 
@@ -259,7 +260,7 @@ class RP:
             self.i += 1
             rhs = self.expr_assign(ns)
             return ('assign', lhs, rhs)
-        if self.at_op('+=') or self.at_op('-='):
+        if self.at_op('+=') or self.at_op('-=') or self.at_op('^='):
             op = self.eat('op')[0]
             rhs = self.expr_assign(ns)
             return ('assign', lhs, ('bin', op, lhs, rhs))
@@ -287,10 +288,17 @@ class RP:
         return e
 
     def expr_bitor(self, ns):
-        e = self.expr_bitand(ns)
+        e = self.expr_bitxor(ns)
         while self.at_op('|') and not self.at_op('|', 1):
             self.i += 1
-            e = ('bin', '|', e, self.expr_bitand(ns))
+            e = ('bin', '|', e, self.expr_bitxor(ns))
+        return e
+
+    def expr_bitxor(self, ns):
+        e = self.expr_bitand(ns)
+        while self.at_op('^'):
+            self.i += 1
+            e = ('bin', '^', e, self.expr_bitand(ns))
         return e
 
     def expr_bitand(self, ns):
@@ -640,6 +648,10 @@ class RP:
                 if self.at_op(';') or self.at_op('}') or self.at_op(','):
                     return ('break', None)
                 return ('break', self.expr())
+            if v == 'unsafe' and ALLOW_UNSAFE:
+                # only the mask2lean unit sets this: `unsafe { buf.align_to_mut::<u32>() }`
+                self.i += 1
+                return ('unsafe', self.block())
             if v in ('for', 'unsafe', 'continue', 'async', 'move'):
                 self.fail(f'`{v}` is outside the translated subset')
             if v == 'return':
